@@ -229,3 +229,44 @@ def summarize_validation(v):
 
 def summarize_test(t):
     return (t.is_valid, t.tested, t.num_failures, [tx(tuple(f.path)) for f in t.failures], tx(t.data.get_original()))
+
+
+def concrete_run():
+    """True outside CrossHair (witness runs and replays): where routes that cannot be executed
+    symbolically (YAML text, real json.dumps) are exercised on the concrete atoms."""
+    try:
+        from crosshair.tracers import is_tracing
+
+        return not is_tracing()
+    except Exception:
+        return True
+
+
+def yaml_text(obj):
+    import io
+    from ruamel.yaml import YAML
+
+    buf = io.StringIO()
+    YAML(typ="safe").dump(obj, buf)
+    return buf.getvalue()
+
+
+def yaml_safe_atoms(*atoms):
+    """atoms survive YAML text unchanged (printable ASCII strings only)"""
+    for a in atoms:
+        if isinstance(a, str) and not all(32 <= ord(ch) < 127 for ch in a):
+            return False
+    return True
+
+
+def outcome(thunk):
+    """('ok', type-exact result) or ('raised', exception type name): to compare two objects'
+    behaviour including the error they raise (e.g. single() with several matches)."""
+    try:
+        return ("ok", tx(thunk()))
+    except ValueError as e:
+        return ("raised", "ValueError")
+    except TypeError as e:
+        return ("raised", "TypeError")
+    except AttributeError as e:
+        return ("raised", "AttributeError")  # e.g. map_keys() of a non-mapping node: undefined for both alike
